@@ -142,7 +142,9 @@ pub fn run(args: &[String]) -> i32 {
             }
         }
         rec(&mut String::new(), maxlen, &alpha, &mut inputs);
-        for kw in ["account", "commodity", "include", "apply tag", "end apply tag", "2024/01/01", "2024/01/01 x\n a  1 (", "P 2024/01/01 X 0 Y", "2024/01/01 x\n A  0 X @@ 5 Y\n B  -5 Y"] {
+        for kw in ["account", "commodity", "include", "apply tag", "end apply tag", "2024/01/01", "2024/01/01 x\n a  1 (", "P 2024/01/01 X 0 Y", "2024/01/01 x\n A  0 X @@ 5 Y\n B  -5 Y",
+                   "2024/01/01 x\n A  0,000.05 USD\n B", "2024/01/01 x\n A  -00,000.0100 USD\n B", "2024/01/01 x\n A  1 USD @ 0,000.0075 EUR = 0,000.09 USD\n B", "commodity USD\n    format 0,000.00001 USD",
+                   "2024/01/01 x\n A  000,000 USD\n B", "2024/01/01 x\n A  (0,000.5 USD * -0,000.001)\n B"] {
             inputs.push(kw.to_owned());
             inputs.push(format!("{}\n", kw));
         }
